@@ -17,7 +17,8 @@ MANIFEST = {
                   "(sample groups, subs, tfxd/tfrf, unknown) encrypt -> encode/decode -> decrypt restores the clear children, data offset, mdat position AND "
                   "every sample byte (both schemes, any protection function). Senc box byte for byte: C06_senc_codec, C06_aux_consistent, C06_saio_points_at_entries, "
                   "C06_senc_transport_cenc/_cbcs; SencBox.AddSample in its repaired text: C06_senc_repaired_agrees (same SencBox as the pinned text on uniform "
-                  "fragments) and C06_senc_transport_mixed (fragments mixing samples with and without sub-sample maps: tables transported exactly). Sample "
+                  "fragments), C06_senc_transport_mixed (fragments mixing samples with and without sub-sample maps: tables transported exactly) and "
+                  "C06_fragment_roundtrip_repaired_cenc/_cbcs (the fragment round trip for the repaired text, no longer vacuous on mixed fragments); C06_seig_override_refuted. Sample "
                   "location: the trex is a parameter of both sides (C06_fragment_roundtrip_trex_cenc, _trex_cbcs WITHOUT a length hypothesis, C06_trex_mismatch_refuted). "
                   "Durations / flags / composition offsets / decode times: C06_timing_roundtrip (the defaults both sides write into trun.Samples with ANY trex leave no "
                   "trace in the encoded trun; metadata after encrypt and after decrypt = clear, for every combination of trun/tfhd/trex signalling incl. "
